@@ -10,6 +10,7 @@ import CfVerif.Proofs.C06Live
 import CfVerif.Proofs.C06Deck
 import CfVerif.Proofs.C06Retry
 import CfVerif.Proofs.C06Conc
+import CfVerif.Proofs.C06Fan
 namespace CfVerif.C06
 open CfVerif
 
@@ -1079,5 +1080,76 @@ example : (crunSys ConcVariant.code (CSys.init [List.replicate 30 9] [])
      .net (.deliver 0 false), .stepCall, .stepCall, .stepCall, .net (.deliver 0 false)]).map (fun r => r.1.outs.getLast?) =
     some (some (.readOk 3 0 2 (List.replicate 25 9))) := by
   decide +kernel
+
+/-! ## Round 5: what the SUBSCRIBERS of the notification Callers observe
+
+"Exactly one success or failure notification" is about the subscribers of `mem_read_cb` / `mem_read_failed_cb` /
+`mem_write_cb` / `mem_write_failed_cb`; subscribers may subscribe / unsubscribe (themselves, others) from inside a
+notification.  Model: `callerCall` / `fstep` / `frun` (`Caller.add_callback` / `remove_callback` are C07's `callerAdd` /
+`callerRemove`). -/
+
+/-- Tie A: `Caller.call` iterates over a copy of the callback list and calls each callback once; `add_callback` does not
+register duplicates; `remove_callback` is `list.remove`; `Memory` notifies through these Callers and `_clear_state()`
+replaces them. -/
+theorem gen_caller_call :
+    CallerVariant.code = CallerVariant.fixed ∧ Gen.C06.callerCallLoopBody = ["cb(*args)"] ∧
+    Gen.C06.callerCallArgs = "self, *args" ∧
+    Gen.C06.callerAddBody = ["if (cb in self.callbacks) is False:\n    self.callbacks.append(cb)"] ∧
+    Gen.C06.callerRemoveBody = ["self.callbacks.remove(cb)"] ∧ Gen.C06.callerInitBody = ["self.callbacks = []"] ∧
+    Gen.C06.memNotifyCalls = ["self.mem_added_cb.call", "self.mem_read_cb.call", "self.mem_read_failed_cb.call",
+      "self.mem_write_cb.call", "self.mem_write_failed_cb.call"] ∧
+    Gen.C06.clearStateCallers = ["self.mem_added_cb = Caller()", "self.mem_read_cb = Caller()",
+      "self.mem_read_failed_cb = Caller()", "self.mem_write_cb = Caller()", "self.mem_write_failed_cb = Caller()"] := by
+  decide
+
+/-- **Every subscriber registered when a notification is issued is told exactly once** - in registration order, nobody
+else, for EVERY behaviour of the subscribers inside the notification (unsubscribing themselves - one-shot listeners -,
+unsubscribing others, subscribing others, depending on everything told so far). -/
+theorem every_registered_subscriber_is_told_exactly_once (beh : SBeh) (o : Out) (k : NKind) (hk : o.kind? = some k)
+    (f : Fan) (hn : f.subs.Nodup) :
+    (callerCall CallerVariant.code beh o f).told = f.told ++ (f.subs.get k).map (fun c => (c, o)) ∧
+    ∀ c, ((f.subs.get k).map (fun c => (c, o))).count (c, o) = if c ∈ f.subs.get k then 1 else 0 := by
+  rw [gen_caller_call.1]
+  exact ⟨(callerCall_copy beh o k hk f).1, fun c => count_map_pair (hn k) c o⟩
+
+/-- **... over all histories**: whatever requests, packets, link losses and (un)subscriptions happen and whatever the
+subscribers do, the log of who was told what equals the log of who was registered when each notification was issued
+(`due`), no subscriber is registered twice, and the library itself (state, packets, notifications) behaves as in the
+model without subscribers - so every theorem about the notifications of a request (`reads_exactly_once`,
+`writes_once_in_order`, `write_notified_queued_or_superseded`, ...) is a theorem about what each registered subscriber
+is told. -/
+theorem subscribers_are_told_what_is_due (beh : SBeh) (evs : List FEv) :
+    (frun CallerVariant.code beh FSt.init evs).1.f.told = (frun CallerVariant.code beh FSt.init evs).1.f.due ∧
+    (frun CallerVariant.code beh FSt.init evs).1.f.subs.Nodup ∧
+    ((frun CallerVariant.code beh FSt.init evs).1.s, (frun CallerVariant.code beh FSt.init evs).2) =
+      run Variant.fixed St.init (evs.filterMap fun | .mem e => some e | .sub _ => none) := by
+  rw [gen_caller_call.1]
+  have h := frun_ok beh (x := FSt.init) ⟨rfl, Subs.none_nodup⟩ evs
+  exact ⟨h.1, h.2, frun_mem _ beh FSt.init evs⟩
+
+/-- a listener that unsubscribes itself when told (one-shot), registered ahead of another listener -/
+def oneShotFirst : SBeh := fun _ c o =>
+  if c = 1 then (match o.kind? with | some k => [.remove k 1] | none => []) else []
+
+/-- **The copy is what this rests on**: with `Caller.call` iterating over the live list, the listener registered right
+after a one-shot listener misses the notification (it is due, it is not told). -/
+theorem live_iteration_skips_the_next_subscriber :
+    (callerCall { copies := false } oneShotFirst (.readOk 7 0 0 []) ⟨⟨[1, 2], [], [], []⟩, [], []⟩).told =
+      [(1, .readOk 7 0 0 [])] ∧
+    (callerCall { copies := false } oneShotFirst (.readOk 7 0 0 []) ⟨⟨[1, 2], [], [], []⟩, [], []⟩).due =
+      [(1, .readOk 7 0 0 []), (2, .readOk 7 0 0 [])] := by
+  decide
+
+/-- the same situation with the code: both are told; the one-shot listener is gone afterwards -/
+example : (callerCall CallerVariant.code oneShotFirst (.readOk 7 0 0 []) ⟨⟨[1, 2], [], [], []⟩, [], []⟩).told =
+      [(1, .readOk 7 0 0 []), (2, .readOk 7 0 0 [])] ∧
+    (callerCall CallerVariant.code oneShotFirst (.readOk 7 0 0 []) ⟨⟨[1, 2], [], [], []⟩, [], []⟩).subs.rOk = [2] := by
+  decide
+/-- a history: two listeners, the first one-shot; a read of 3 bytes completes; a second read completes -/
+example : (frun CallerVariant.code oneShotFirst FSt.init
+    [.sub (.add .rOk 1), .sub (.add .rOk 2), .mem (.read 7 0 0 3), .mem (.pkt 1 [0, 0, 0, 0, 0, 0, 9, 9, 9]),
+     .mem (.read 8 0 0 1), .mem (.pkt 1 [0, 0, 0, 0, 0, 0, 5])]).1.f.told =
+    [(1, .readOk 7 0 0 [9, 9, 9]), (2, .readOk 7 0 0 [9, 9, 9]), (2, .readOk 8 0 0 [5])] := by
+  decide
 
 end CfVerif.C06
